@@ -638,7 +638,8 @@ func (e *Exec) fileObs() []int {
 			if err != nil {
 				continue
 			}
-			open[strings.TrimSuffix(t, " (deleted)")] = true
+			// a descriptor keeps its file: Sealed.Suicide renames <file> to <file>.del before it removes it
+			open[strings.TrimSuffix(strings.TrimSuffix(t, " (deleted)"), ".del")] = true
 		}
 	}
 	out := make([]int, 0, len(e.bases))
